@@ -386,8 +386,13 @@ impl VerifBox for SubstreamBox {
         let obs = match t.as_slice() {
             ["recv"] => self.recv(),
             ["writer_stop"] => {
-                self.pair.as_mut().expect("pair").stopped = true;
-                "ok".into()
+                let p = self.pair.as_mut().expect("pair");
+                if let Writer::Busy(_) = p.writer {
+                    "busy".into()
+                } else {
+                    p.stopped = true;
+                    "ok".into()
+                }
             }
             ["send", ..] | ["flush"] | ["wait"] | ["raw", _] | ["close"] => {
                 let obs = self.writer_op(&t);
